@@ -133,8 +133,11 @@ def build_frames(case):
             qo = Quaternion(axis=[0.0, 0.0, 1.0], angle=math.pi * o["yaw16"] / 16)
             if o.get("qneg"):
                 qo = Quaternion(-qo.q)
+            fid = fids[o["frame"]]
+            if case.get("str_frames") and o["frame"] in FRAME_NAMES:
+                fid = o["frame"]        # the spelling the library itself leaves on the objects of an interpolated frame ("map")
             objs.append(DynamicObject(
-                unix_time=fr["stamp"], frame_id=fids[o["frame"]],
+                unix_time=fr["stamp"], frame_id=fid,
                 position=tuple(k / 8 for k in o["pos8"]),
                 orientation=qo,
                 shape=Shape(ShapeType.BOUNDING_BOX, (1.0 + (tag % 5) / 4, 1.0 + (tag % 3) / 2, 1.5)),
@@ -145,7 +148,15 @@ def build_frames(case):
         tr = None
         if fr["ego"] is not None:
             q = Quaternion(*[float(c) for c in fr["ego"]["q"]]).normalised
-            tr = [HomogeneousMatrix(tuple(k / 8 for k in fr["ego"]["t8"]), q, src=FrameID.BASE_LINK, dst=FrameID.MAP)]
+            ego2map = HomogeneousMatrix(tuple(k / 8 for k in fr["ego"]["t8"]), q, src=FrameID.BASE_LINK, dst=FrameID.MAP)
+            tr = [ego2map]
+            st = case.get("sensor_tf")
+            if st:
+                # the transform list as the loader builds it (_get_transforms): ego2map, sensor2ego, sensor2map = ego2map . sensor2ego
+                s2e = HomogeneousMatrix(tuple(k / 8 for k in st["t8"]), Quaternion(*[float(c) for c in st["q"]]).normalised,
+                                        src=FrameID.LIDAR_TOP, dst=FrameID.BASE_LINK)
+                s2m = ego2map.dot(s2e)
+                tr = [ego2map, s2e, s2m] if st["order"] == "loader" else [s2e, s2m, ego2map]
         frames.append(FrameGroundTruth(fr["stamp"], str(fi), objs, transforms=tr))
     return frames
 
@@ -157,6 +168,7 @@ def snapshot(frames):
     for f in frames:
         m = f.transforms.get((FrameID.BASE_LINK, FrameID.MAP))
         out.append((f.unix_time, f.frame_name, None if m is None else m.matrix.tolist(),
+                    sorted((str(k.src), str(k.dst), v.matrix.tolist()) for k, v in f.transforms.items()),
                     [(o.uuid, o.pointcloud_num, o.unix_time, str(o.frame_id), tuple(o.state.position),
                       tuple(o.state.orientation.q.tolist()), None if o.state.velocity is None else tuple(o.state.velocity), o.state.size,
                       str(type(o.frame_id).__name__)) for o in f.objects]))
@@ -188,9 +200,15 @@ def observe(frames, call):
                      "yaw": float(o.state.orientation.yaw_pitch_roll[0]) / math.pi,
                      "q": [float(v) for v in o.state.orientation.q],
                      "size": [float(v) for v in o.state.size]})
-    return {"kind": "interp", "name": r.frame_name, "stamp": r.unix_time, "objs": objs,
-            "ego_t": [float(v) for v in m.position], "ego_yaw": float(m.rotation.yaw_pitch_roll[0]) / math.pi,
-            "ego_q": [float(v) for v in m.rotation.q]}
+    out = {"kind": "interp", "name": r.frame_name, "stamp": r.unix_time, "objs": objs,
+           "ego_t": [float(v) for v in m.position], "ego_yaw": float(m.rotation.yaw_pitch_roll[0]) / math.pi,
+           "ego_q": [float(v) for v in m.rotation.q]}
+    s2e = r.transforms.get((FrameID.LIDAR_TOP, FrameID.BASE_LINK))
+    s2m = r.transforms.get((FrameID.LIDAR_TOP, FrameID.MAP))
+    if s2e is not None and s2m is not None:
+        # recorded in the distribution only (the property text is silent about the other transforms of the frame)
+        out["sensor2map_follows_ego"] = bool(abs(m.dot(s2e).matrix - s2m.matrix).max() <= 1e-6)
+    return out
 
 
 # ------------------------------------------------------------------------------------------------
@@ -443,6 +461,15 @@ class LookupCorr(Corr):
                 for f in c["frames"]:
                     for o in f["objs"]:
                         o["vel8"] = [0, 0, 0]
+        # input representations: frame ids of the objects spelled as strings; the transform list the loader attaches
+        for k, c in enumerate(out):
+            if c.get("stream") in ("typical", "boundary", "witness"):
+                if k % 5 == 1:
+                    c["str_frames"] = True
+                if k % 3 != 2:
+                    c["sensor_tf"] = {"order": "loader" if k % 2 else "sensor_first",
+                                      "t8": [rng.randint(-16, 16), rng.randint(-8, 8), rng.randint(0, 24)],
+                                      "q": rng.choice([[1, 0, 0, 0], [2, 0, 0, 1], [1, 1, 1, 1], [3, 1, 0, 2], [5, -2, 1, 0]])}
         for c in out:
             fix_antipodal(c)
         return out
@@ -456,7 +483,7 @@ class LookupCorr(Corr):
         mgr.ground_truth_frames = frames
         before = snapshot(frames)
         res = []
-        for t, tol in case["queries"]:
+        for qi, (t, tol) in enumerate(case["queries"]):
             o_now = observe(frames, lambda: get_now_frame(frames, t, tol))
             o_int = observe(frames, lambda: get_interpolated_now_frame(frames, t, tol))
             m_now = observe(frames, lambda: mgr.get_ground_truth_now_frame(t, tol))
@@ -468,6 +495,22 @@ class LookupCorr(Corr):
                 d_now = observe(frames, lambda: mgr.get_ground_truth_now_frame(t))
                 d_int = observe(frames, lambda: mgr.get_ground_truth_now_frame(t, interpolate_ground_truth=True))
                 q["mgr_defaults"] = "same" if (d_now == o_now and d_int == o_int) else {"now": d_now, "interp": d_int}
+            if qi % 3 == 0:
+                # the same query time / tolerance in another number type (float of integral value, numpy integer): same answer
+                import numpy as np
+
+                form = ["float_time", "numpy_int", "float_tolerance", "float_both"][(qi // 3) % 4]
+                t2 = float(t) if form in ("float_time", "float_both") else np.int64(t) if form == "numpy_int" else t
+                tol2 = float(tol) if form in ("float_tolerance", "float_both") else np.int64(tol) if form == "numpy_int" else tol
+                if t2 == t and tol2 == tol and abs(t) < 2 ** 53 and abs(tol) < 2 ** 53:
+                    r_now = observe(frames, lambda: get_now_frame(frames, t2, tol2))
+                    r_int = observe(frames, lambda: get_interpolated_now_frame(frames, t2, tol2))
+                    same = r_now == o_now and r_int == o_int
+                    q["number_type"] = {"form": form, "same": same}
+                    if not same:
+                        q["number_type"].update({"now": self._short(r_now), "interp": self._short(r_int),
+                                                 "interp_stamp": repr(r_int.get("stamp")),
+                                                 "object_stamps": [repr(x["time"]) for x in r_int.get("objs", [])][:4]})
             q["mgr_now"] = "same" if m_now == o_now else m_now
             q["mgr_interp"] = "same" if m_int == o_int else m_int
             res.append(q)
@@ -566,6 +609,11 @@ class LookupCorr(Corr):
             if q.get("mgr_defaults", "same") != "same":
                 return (f"manager lookup at t={t} with the documented default tolerance (75 ms) / default interpolate_ground_truth differs from the "
                         f"explicit call: {str(q['mgr_defaults'])[:200]}")
+            nt = q.get("number_type")
+            if nt and not nt["same"]:
+                return (f"lookup at t={t}, tol={tol} answers differently when the same numbers are passed as {nt['form']}: "
+                        f"now {self._short(q['now'])} vs {nt['now']}, interpolated {self._short(q['interp'])} vs {nt['interp']} "
+                        f"(frame stamp {nt['interp_stamp']}, object stamps {nt['object_stamps']})")
             for which in ("now", "mgr_now"):
                 o = q["now"] if q[which] == "same" else q[which]
                 msg = self._oracle_now(stamps, t, tol, o)
@@ -772,7 +820,9 @@ class LookupCorr(Corr):
              "now": {}, "interp": {}, "not_time_ordered": 0, "yaw_checked_timelines": 0,
              "tolerance_equal_to_dt": 0, "nearest_ties": 0, "alpha_zero_interpolations": 0,
              "paired_objects": 0, "kept_before_only": 0, "kept_after_only": 0, "manager_differs_from_function": 0,
-             "inputs_unchanged": 0, "timelines_without_velocities": 0, "query_before_first": 0, "query_after_last": 0, "query_on_frame": 0}
+             "inputs_unchanged": 0, "timelines_without_velocities": 0, "timelines_with_string_frame_ids": 0,
+             "timelines_with_loader_transform_lists": {}, "queries_repeated_in_another_number_type": {},
+             "interpolated_frames_whose_sensor2map_follows_the_interpolated_ego": {"yes": 0, "no (kept from the before frame)": 0}, "query_before_first": 0, "query_after_last": 0, "query_on_frame": 0}
         for c, o in zip(cases, obs):
             if "queries" not in o:
                 continue
@@ -783,6 +833,10 @@ class LookupCorr(Corr):
             d["yaw_checked_timelines"] += 1 if case_yawok(c) else 0
             d["inputs_unchanged"] += 1 if o["inputs_unchanged"] else 0
             d["timelines_without_velocities"] += bool(c.get("vel_none"))
+            d["timelines_with_string_frame_ids"] += bool(c.get("str_frames"))
+            if c.get("sensor_tf"):
+                k = c["sensor_tf"]["order"]
+                d["timelines_with_loader_transform_lists"][k] = d["timelines_with_loader_transform_lists"].get(k, 0) + 1
             stamps = [f["stamp"] for f in c["frames"]]
             for (t, tol), q in zip(c["queries"], o["queries"]):
                 d["queries"] += 1
@@ -790,6 +844,12 @@ class LookupCorr(Corr):
                 ki = q["interp"]["kind"] + (":" + q["interp"]["type"] if q["interp"]["kind"] == "error" else "")
                 d["now"][kn] = d["now"].get(kn, 0) + 1
                 d["interp"][ki] = d["interp"].get(ki, 0) + 1
+                if q.get("number_type"):
+                    k = q["number_type"]["form"]
+                    d["queries_repeated_in_another_number_type"][k] = d["queries_repeated_in_another_number_type"].get(k, 0) + 1
+                if "sensor2map_follows_ego" in q["interp"]:
+                    d["interpolated_frames_whose_sensor2map_follows_the_interpolated_ego"][
+                        "yes" if q["interp"]["sensor2map_follows_ego"] else "no (kept from the before frame)"] += 1
                 if q["mgr_now"] != "same" or q["mgr_interp"] != "same":
                     d["manager_differs_from_function"] += 1
                 if stamps:
@@ -815,6 +875,15 @@ class LookupCorr(Corr):
 class C17(Prop):
     id = "C17"
     props_file = "Props/C17.v"
+    extra_props_files = ["Props/C17Slerp.v"]
+    # the slerp theorems are about Coq's axiomatised real numbers: exactly these standard-library axioms, for that file only
+    allowed_axioms = {"Props/C17Slerp.v": ["ClassicalDedekindReals.sig_not_dec", "ClassicalDedekindReals.sig_forall_dec",
+                                          "FunctionalExtensionality.functional_extensionality_dep", "Classical_Prop.classic"]}
+    trusted_base_extra = ["Props/C17Slerp.v only: the standard library's real-number axioms ClassicalDedekindReals.sig_not_dec, "
+                          "ClassicalDedekindReals.sig_forall_dec, FunctionalExtensionality.functional_extensionality_dep and "
+                          "Classical_Prop.classic (excluded middle), as Print Assumptions reports them; Model/SlerpR.v is a reading of "
+                          "pyquaternion 0.9.9 Quaternion.slerp (third-party code, not part of /repo), not executable and tied to the "
+                          "implementation only through the numerical comparison with yaw_interp"]
     gen_files = []
     design_ref = "DESIGN.md section 4, C17"
     technique = ("Rocq proofs about an executable Gallina model of get_now_frame / get_interpolated_now_frame / "
@@ -826,20 +895,30 @@ class C17(Prop):
                   "tolerance and returns interpolation / the one usable neighbour / None accordingly; the interpolated frame is stamped t, "
                   "paired objects sit at (1-a)p1 + a p2 of their map-frame positions with a=(t-t1)/(t2-t1) in [0,1), velocity likewise, "
                   "a = 0 reproduces the before frame exactly, uuids are before-ids then new after-ids, singletons are kept. Model and "
-                  "implementation are compared inside Coq on every generated query.")
-    level_note = ("The rotation part (pyquaternion slerp: acos/sin) is not provable over Q: the yaw of the model is the shortest-arc "
-                  "specification (wrap to (-1,1] pi-units, proved to be the unique short representative) and the implementation is compared "
-                  "with it numerically (1e-6 pi-units; pyquaternion replaces slerp by a normalised lerp below 3.6 deg, deviation <= 3.2e-7 "
+                  "implementation are compared inside Coq on every generated query. Run-time oracle only: answers do not depend on the number "
+                  "type of the query, on string-spelled frame ids or on further transforms stored with the frames.")
+    level_note = ("The rotation part (pyquaternion slerp: acos/sin) is not computable over Q: the yaw of the executable model is the shortest-arc "
+                  "specification (wrap to (-1,1] pi-units, proved to be the unique short representative). Props/C17Slerp.v proves, over Coq's "
+                  "real numbers (standard-library real-number axioms + excluded middle, named in the trusted base), that the slerp FORMULA "
+                  "(sign flip, 0.9995 switch, sine formula) returns unit quaternions, reproduces both neighbours, lies on the great arc at "
+                  "the proportional angle with total angle <= pi/2 in quaternion space (the shorter rotation), is independent of the inputs' "
+                  "signs, and for yaw rotations equals that rational specification (C17_yaw_interp_is_slerp). What stays numerical is the "
+                  "tie of the formula to the running pyquaternion code and binary64 rounding: the implementation is compared "
+                  "with the specification numerically (1e-6 pi-units; pyquaternion replaces slerp by a normalised lerp below 3.6 deg, deviation <= 3.2e-7 "
                   "pi-units) and, for arbitrary 3-D ego rotations, against an independent exp/log shortest-arc formula in the oracle. "
                   "Exactly opposite orientations (non-unique shortest arc) are excluded from the generated inputs.")
     rule = ("per time line (1-30 frames quick / 1-40 thorough; real objects, k/8 lattice, integer us stamps, ids appearing/disappearing, "
             "yaw-only or general rational ego quaternions): queries before/on/next to/between/after frames with tolerances equal to each "
-            "|dt| and +-1; non-trivial = time line with >= 2 frames whose queries produced at least 3 different result kinds")
+            "|dt| and +-1; every 6th time line without velocities; every 5th with the objects' frame ids spelled as strings (as the library "
+            "leaves them on interpolated frames); two thirds with the transform list the loader attaches (ego2map, LIDAR_TOP->BASE_LINK, "
+            "LIDAR_TOP->MAP, in the loader's order or sensor first); every 3rd query repeated with the same numbers as float / numpy integer "
+            "(oracle: same answer); non-trivial = time line with >= 2 frames whose queries produced at least 3 different result kinds")
     assumptions = ["3-D DynamicObject ground truth (DynamicObject2D interpolation picks one of the two objects and is not modelled)",
                    "integer micro-second stamps and tolerances (as documented); velocity tuples present",
                    "objects rotate about z (yaw) in the generated inputs; ego rotations are arbitrary rational quaternions",
                    "interpolated lookup specified for time-ordered lists only (the plain lookup for any list)"]
-    not_proved = ["slerp as an algorithm (acos/sin): shortest-arc yaw is a specification validated numerically",
+    not_proved = ["the normalised-lerp branch of slerp (|dot| > 0.9995) is proved to stay BETWEEN the neighbours, not at the exactly proportional angle (deviation <= 3.2e-7 pi-units, validated)",
+                  "binary64 evaluation of acos/sin/sqrt inside pyquaternion (validated numerically against the proved formula's specification)",
                   "float rounding of the linear interpolation (validated within 1e-9, bit-exact at alpha = 0 and for copied objects)",
                   "that deepcopy leaves every other attribute untouched beyond the observed ones (uuid, point number tag, size, time, frame)"]
 
